@@ -244,6 +244,46 @@ func reqCSV(db, meas, body, tag string) reqSpec {
 	return reqSpec{Ep: "csv", Body: []byte(body), Tag: tag, Query: map[string]string{"db": db, "measurement": meas}}
 }
 
+// a CSV import whose integer cells identify their column: cell(col j, row i) = 100*(j+1)+i
+func reqCSVCols(db, meas, timeCol string, header []string, rows int, start int64) reqSpec {
+	var b strings.Builder
+	q := func(s string) string {
+		if strings.ContainsAny(s, ",\"\n") {
+			return "\"" + strings.ReplaceAll(s, "\"", "\"\"") + "\""
+		}
+		return s
+	}
+	for j, h := range header {
+		if j > 0 {
+			b.WriteByte(',')
+		}
+		b.WriteString(q(h))
+	}
+	b.WriteByte('\n')
+	vals := map[string][]int64{}
+	for i := 0; i < rows; i++ {
+		for j, h := range header {
+			if j > 0 {
+				b.WriteByte(',')
+			}
+			if h == timeCol {
+				fmt.Fprintf(&b, "%d", start+int64(i))
+				continue
+			}
+			v := int64(100*(j+1) + i)
+			fmt.Fprintf(&b, "%d", v)
+			vals[h] = append(vals[h], v)
+		}
+		b.WriteByte('\n')
+	}
+	r := reqSpec{Ep: "csv", Body: []byte(b.String()), Tag: "csv-padded-header", Query: map[string]string{"db": db, "measurement": meas}}
+	if timeCol != "time" {
+		r.Query["time_column"] = timeCol
+	}
+	r.Exp = &expect{DB: db, Meas: meas, ImportEp: "csv", ColVals: vals}
+	return r
+}
+
 func reqParquet(db, meas string, body []byte, tag string) reqSpec {
 	return reqSpec{Ep: "parquet", Body: body, Tag: tag, Query: map[string]string{"db": db, "measurement": meas}}
 }
@@ -405,6 +445,26 @@ func edgeGrid() []seqSpec {
 		}
 		one("invalid-measurement-name-msgpack", rs...)
 		one("invalid-database-name-multi", reqLP("lp", "9db", "a v=1i\nb v=1i\nc v=1i\n", "lp-invalid-db"), reqLP("implp", "d.b", "a v=1i\nb v=1i\n", "implp-invalid-db"))
+	}
+	// --- CSV headers that are distinct only by padding / collide after trimming with another column, with
+	// `time`, with the chosen time_column, or with the empty name: 2xx => every column stored under its RAW name
+	{
+		type hc struct {
+			timeCol string
+			header  []string
+		}
+		cases := []hc{
+			{"time", []string{"time", "v", " v"}}, {"time", []string{"time", "v ", "v"}}, {"time", []string{"time", "\tv", "v", "v\t"}},
+			{"time", []string{"time", " time", "v"}}, {"time", []string{"time", "time ", "w"}},
+			{"ts", []string{"ts", " time", "v"}}, {"ts", []string{"ts", "time ", "v"}}, {"ts", []string{"ts", " ts", "v"}}, {"ts", []string{" ts", "ts", "v"}},
+			{"time", []string{"time", " ", "v"}}, {"time", []string{"time", "  ", " ", "v"}}, {"time", []string{"time", "\t", "v"}},
+			{"time", []string{"time", "a b", "a  b", "V", "v"}}, {" ts", []string{" ts", "ts", "time "}},
+		}
+		var rs []reqSpec
+		for i, cs := range cases {
+			rs = append(rs, reqCSVCols("db1", fmt.Sprintf("h%d", i), cs.timeCol, cs.header, 2, t))
+		}
+		one("csv-padded-header-names", rs...)
 	}
 	// --- zero-row columnar record, then an import that flushes everything
 	add("empty-arrays-then-import",
@@ -707,6 +767,20 @@ func randomReq(r *vh.Rand, start int64) reqSpec {
 		d := db
 		if d == "" {
 			d = "db1"
+		}
+		if r.Chance(40) {
+			pool := []string{"v", " v", "v ", "w", "\tw", " ", "time ", " time", "x y", "V"}
+			hdr := []string{"time"}
+			seen := map[string]bool{"time": true}
+			for k := r.Range(1, 4); k > 0; k-- {
+				n := vh.Pick(r, pool)
+				if !seen[n] {
+					seen[n] = true
+					hdr = append(hdr, n)
+				}
+			}
+			rq = reqCSVCols(d, fmt.Sprintf("csvp%d", r.Intn(1000000)), "time", hdr, r.Range(1, 3), start)
+			break
 		}
 		rq = reqCSV(d, meas, randCSVBody(r, start), "csv")
 	case 9:
